@@ -96,10 +96,8 @@ example (ops : List Op) := C01_invariant true true (by decide) ops
 
 /-! ### the observable statement, for every history -/
 
-theorem applyConfig_reqs (s : State) (live new : Config) (first : Bool) : (applyConfig s live new first).1.reqs = s.reqs := by
-  unfold applyConfig
-  dsimp only
-  split <;> split <;> simp [servicesChanged, classChanged]
+theorem applyConfig_reqs (s : State) (live new : Config) (first : Bool) : (applyConfig s live new first).1.reqs = s.reqs :=
+  applyConfig_reqs' s live new first
 
 /-- **C01**: from the started daemon, every history of input chunks and timer expiries produces a
     trace the reader accepts. -/
